@@ -65,16 +65,20 @@ def same_crs_pair(rng: random.Random, kind: Optional[str] = None, ttol: float = 
         P = Affine.translation(tx + rx, ty + ry)
         paste, k_scale = inside, 1
     elif kind == "scale":
-        s = rng.choice([2, 3, 4])
+        s = rng.choice([2, 3, 4, 2, 3, 4, 5, 7, 16])
         near = rng.choice([0, 0, 0.5 * stol, -0.5 * stol, 2 * stol, -2 * stol])
         whole = rng.random() < 0.75
         if whole:
             tx, ty = s * (tx // s), s * (ty // s)  # whole-pixel shift on the grid of the shrunk source
         else:
             tx, ty = s * (tx // s) + rng.randint(1, s - 1), s * (ty // s) + rng.choice([0, 1])
-        P = Affine.translation(tx, ty) * Affine.scale(s + near, s + near)
+        # sub-pixel residue measured in pixels of the *shrunk* source (what the tolerance is about): s times larger in source pixels
+        rho_x, rho_y = (rng.choice([0, 0.2, -0.2, 0.9, -0.9, 0.5]) * ttol, rng.choice([0, 0.3, -0.8]) * ttol) if rng.random() < 0.4 else (0.0, 0.0)
+        P = Affine.translation(tx + rho_x * s, ty + rho_y * s) * Affine.scale(s + near, s + near)
         paste = abs(near) < stol and whole
         k_scale = s if paste else None
+        if abs(near) > 0 and (rho_x or rho_y):
+            paste = None  # scale error x translation may or may not stay within tolerance: not labelled
     elif kind == "fscale":
         P = Affine.translation(tx + rng.choice([0, 0.5, rng.random()]), ty) * Affine.scale(rng.choice([0.5, 1.5, 2.2, 0.3, 1.005, 2.5]), rng.choice([0.5, 1.5, 2.2, 1, 3]))
         paste = False
